@@ -384,6 +384,29 @@ func runC06(r *Run, rng *Rng, thorough bool) {
 			try("large/long-string", 1, append([]byte{0xa1, 0x19, 0x01, 0x00}, s...))
 		}
 	}
+	// (3b) JSON documents around profile dispatch (two registered profiles at once, unknown, null, non-string values),
+	// each followed by ordinary requests: an entry point that does not return — or that leaves the process unable to
+	// answer the next request — shows up as a silent worker
+	{
+		names := []string{"PSA_IOT_PROFILE_1", "http://arm.com/psa/2.0.0", "http://example.com/unknown", ""}
+		vals := func(n string) []string { return []string{`"` + n + `"`, "null", "7", "[]"} }
+		for _, a := range names {
+			for _, av := range vals(a) {
+				for _, b := range names {
+					for _, bv := range vals(b)[:2] {
+						doc := []byte(`{"psa-profile":` + av + `,"eat-profile":` + bv + `,"psa-client-id":1}`)
+						tryJSON("json-dispatch", doc)
+						try("json-dispatch/then-cbor", 1, c1)
+						try("json-dispatch/then-evidence", 0, tok2)
+					}
+				}
+			}
+		}
+		for _, doc := range [][]byte{j1, j2, []byte(`{"eat-profile":"http://arm.com/psa/2.0.0","psa-profile":"PSA_IOT_PROFILE_1"}`), []byte(`{}`), []byte(`null`)} {
+			tryJSON("json-dispatch", doc)
+			tryCBOR("json-dispatch/then-cbor", c2)
+		}
+	}
 	// (4) the C04 token generator (all decodable and undecodable tokens)
 	ntok := 0
 	genTokens(rng, false, func(tc tokCase) {
